@@ -9,7 +9,7 @@ PROP = "C07"
 CONFIG = worlda.base_config(
     rule="every server->client byte of every run of every check goes through the strict response tokenizer; this check adds a dedicated family: a corpus with "
     "double quotes, backslashes, 8-bit bytes, RFC 2047 words, folded lines, missing fields, nested multiparts, message/rfc822 and odd line endings fetched as "
-    "ENVELOPE / BODYSTRUCTURE / BODY[...] by 2 sessions while other sessions STORE/EXPUNGE/APPEND (several tasks write to one session's stream); mailbox "
+    "ENVELOPE / BODYSTRUCTURE / BODY[...] (incl. partial fetches <origin.count> starting before, at and beyond the end of the section) by 2 sessions while other sessions STORE/EXPUNGE/APPEND (several tasks write to one session's stream); mailbox "
     "names and keywords with spaces, quotes and backslashes where the parser admits them (LIST/LSUB/STATUS); error paths reachable only with a clock and "
     "faults (non-DONE input inside IDLE incl. literals, commands on deleted mailboxes, damaged commands, stalled client). ENVELOPE subject/message-id "
     "strings are decoded and compared with the BODY[HEADER] the same FETCH returned. non-trivial = >=1 structured fetch; distinct = op signatures",
@@ -23,6 +23,16 @@ ITEMS = [
     "BODY[TEXT]<0.10>", "BODY.PEEK[HEADER.FIELDS (Subject From \"X-Tok\")]", "BODY[HEADER.FIELDS.NOT (Subject)]", "RFC822.HEADER", "BODY[2.1]", "BODY[1.1.1]",
     "FULL", "ALL", "(BODY[]<5.1000> BODY[TEXT])", "BODY[1.HEADER]", "BODY[1.TEXT]",
 ]
+SECTIONS = ["", "TEXT", "HEADER", "1", "1.MIME", "2", "1.1", "HEADER.FIELDS (Subject)"]
+
+
+def partial_item(r):
+    """BODY[section]<origin.count> with origins before, at and (far) beyond the end of the section"""
+    origin = r.choice((0, 1, 7, 50, 200, 256, 1000, 5000, 100000, 4294967295))
+    count = r.choice((1, 2, 10, 100, 65536, 4294967295))
+    return f"BODY{r.choice(('', '.PEEK'))}[{r.choice(SECTIONS)}]<{origin}.{count}>"
+
+
 IDLE_NOISE = ["NOOP", "x IDLE", "idle", "junk junk", "a APPEND inbox {5}\r\nhello", "\"", "DONE DONE", "a1 FETCH 1 (BODY[])", "{3}\r\nabc", "line\rwith\rcr"]
 
 
@@ -44,7 +54,7 @@ def generate(seed, tier, index, kf):
         elif x < 0.30:
             ops.append({"s": s, "op": "envelope", "uid": r.random() < 0.5, "set": {"all": True} if r.random() < 0.5 else {"pos": [r.randint(1, 6)]}})
         elif x < 0.48:
-            ops.append({"s": s, "op": "fetch", "uid": r.random() < 0.5, "set": {"all": True} if r.random() < 0.4 else {"pos": [r.randint(1, 6)]}, "items": r.choice(ITEMS)})
+            ops.append({"s": s, "op": "fetch", "uid": r.random() < 0.5, "set": {"all": True} if r.random() < 0.4 else {"pos": [r.randint(1, 6)]}, "items": partial_item(r) if r.random() < 0.25 else r.choice(ITEMS)})
         elif x < 0.56:
             name = r.choice(NAMES)
             if r.random() < 0.5:
